@@ -59,9 +59,22 @@ def impl(case):
         M[:] = new      # same ndarray object, new contents
     v = mh.msm.equilibrium_population(M, allow_non_ergodic=case['allow'])
     v2 = mh.msm.peq(M, allow_non_ergodic=case['allow'])
+    layout_diff = []
+    if not np.iscomplexobj(v) and M.ndim == 2 and M.shape[0] == M.shape[1]:
+        from implutil import alt_layouts
+        for lname, A in alt_layouts(M).items():
+            keep = A.copy()
+            try:
+                w = mh.msm.equilibrium_population(A, allow_non_ergodic=case['allow'])
+                if np.iscomplexobj(w) or not np.allclose(w, v, rtol=0, atol=1e-12, equal_nan=True):
+                    layout_diff.append('%s matrix gives %s, C-ordered %s' % (lname, np.asarray(w).tolist(), np.asarray(v).tolist()))
+            except Exception as exc:  # noqa
+                layout_diff.append('%s matrix raises %s' % (lname, type(exc).__name__))
+            if not np.array_equal(keep, A):
+                layout_diff.append('a %s matrix was modified' % lname)
     if np.iscomplexobj(v):
         return {'complex': True, 'v': [complex(x).real.hex() for x in v], 'im': max(abs(complex(x).imag) for x in v)}
-    return {'v': [float(x).hex() for x in v], 'alias_same': bool(np.array_equal(v, v2, equal_nan=True))}
+    return {'v': [float(x).hex() for x in v], 'alias_same': bool(np.array_equal(v, v2, equal_nan=True)), 'layout_diff': layout_diff}
 
 
 def requests(case):
@@ -109,6 +122,8 @@ def judge(case, ibc, answers):
             continue
         if not r['alias_same']:
             P('impl-vs-spec', 'peq alias differs from equilibrium_population')
+        if (clause1 or m['erg']) and r.get('layout_diff'):
+            P('impl-vs-spec', 'the result depends on the memory layout of the matrix: %s' % '; '.join(r['layout_diff'])[:300])
         v = [float.fromhex(x) for x in r['v']]
         if any(math.isnan(x) or math.isinf(x) for x in v):
             P('impl-vs-spec', 'non-finite populations %s' % v)
